@@ -1,3 +1,4 @@
+import Acv.Props.C10Inventory
 import Acv.Model.Counter
 import Acv.Lemmas.Counter
 /-!
